@@ -33,6 +33,7 @@ RULE = "one path per data structure (solver-enumerated ids); all real quantities
 BUDGET_S = {"quick": 400, "thorough": 2400}
 TASK_QUOTA = 12
 NUMERIC_FIRST = 3
+FAST_REAL = True  # obligations are first tried from their cone of influence only (sound: fewer hypotheses)
 SOLVER_TIMEOUT_MS = 20000
 PROVE_TIMEOUT_MS = 60000
 
@@ -54,6 +55,8 @@ def configs(tier, seed):
 
 
 def fixtures(cfg):
+    if cfg["h"] == "mvn":
+        return []  # the LAPACK contracts are themselves the model here; the replay runs real numpy / scipy
     import random
     r = random.Random(3)
     v = {}
@@ -264,9 +267,12 @@ def _vector_block(ctx, G, start, calls, name, P_pre, Hy, ys, cl, d1, d2, D, n_co
     ctx.prove(k_mvn == len(calls), "%s: no further MVN draws" % name)
 
 
+_MVN_COUNT = [0]
+
+
 class _MvnRecorder:
     def __init__(self, ctx, sc):
-        self.ctx, self.sc, self.calls, self.k = ctx, sc, [], 0
+        self.ctx, self.sc, self.calls = ctx, sc, []
 
     def __enter__(self):
         self.saved = self.sc.sample_mvn_from_precision
@@ -276,8 +282,8 @@ class _MvnRecorder:
             self.calls.append((Q.tolist(), mu_part.tolist()))
             out = []
             for _ in range(len(mu_part.tolist())):
-                out.append(ctx.real("mvn%d" % self.k))
-                self.k += 1
+                out.append(ctx.real("mvn%d" % _MVN_COUNT[0]))
+                _MVN_COUNT[0] += 1
             return np.array(out, dtype=float)
         self.sc.sample_mvn_from_precision = fake
         return self
@@ -291,6 +297,7 @@ def h_blocks(ctx, cfg):
     np = ctx.np
     sc = ctx.mod("batchie.models.sparse_combo")
     D, nS, nT, N = cfg["D"], cfg["nS"], cfg["nT"], cfg["N"]
+    _MVN_COUNT[0] = 0
     with ctx.global_rng() as G:
         m, ys, cl, d1, d2, P0, H0 = _mk_state(ctx, sc, cfg)
         m._reconstruct_Mu(clip=False)
